@@ -193,7 +193,7 @@ def scenario_for(alpha_kind, shape, scale_axis=None, bounds_po2=False):
   return scenario
 
 
-def linear_scenario(shape, scale_axis=None):
+def linear_scenario(shape, scale_axis=None, alpha="auto"):
   """quantized_linear(alpha='auto', symmetric, signed): output = quantization_scale * integer code with |code| <= 2^n - 1,
   quantization_scale = max(2*max_G|x| / (2*(2^n - 1)), eps) > 0 over the expected group; group-maximal elements unchanged
   when the scale is above the epsilon floor."""
@@ -204,17 +204,17 @@ def linear_scenario(shape, scale_axis=None):
     s.vars["bits"], s.vars["integer"] = bits, integer
     ip.assume(z3.And(bits >= 2, integer >= 0))
     n = bits - 1
-    kw = {"alpha": "auto"}
+    kw = {"alpha": alpha}
     if scale_axis is not None:
       kw["scale_axis"] = scale_axis
     q = ip.call(Q.qcls(ip, "quantized_linear"), [SNum(bits), SNum(integer), 1, 1], kw)
     x = Q.tensor("x", shape=shape)
     xe = x.e
     s.vars["x"] = xe
-    s.replay = {"class": "quantized_linear", "kwargs": {"alpha": "auto", "scale_axis": scale_axis}, "shape": list(shape),
+    s.replay = {"class": "quantized_linear", "kwargs": {"alpha": alpha, "scale_axis": scale_axis}, "shape": list(shape),
                 "bounds_po2": False, "frozen": False}
     if len(shape) > 1:
-      nk = {"alpha": "auto"}
+      nk = {"alpha": alpha}
       if scale_axis is not None:
         nk["scale_axis"] = scale_axis
       s.info["native_probes"] = [{"clause": "finite_outputs", "kind": "c05_finite",
@@ -236,6 +236,13 @@ def linear_scenario(shape, scale_axis=None):
     axes = c04.expected_axes(rank, scale_axis) if rank > 1 else ()
     reds = [k for kind, _, _, k in ip.aggs if kind in ("K.mean", "K.max")]
     s.claim("scale_group", bool(reds) and all(tuple(k[2] or ()) == tuple(axes) for k in reds))
+    if alpha == "auto_po2":
+      # the least-squares refinement loop (tf.while_loop, at most 5 rounds, every trip count is a path): whatever
+      # round it stops in, the scale is an integer power of two over the SAME group, and the codes stay in range
+      e = I._pow2_exp(z3.simplify(qs))
+      s.claim("scale_po2", e is not None)
+      s.claim("code_range", z3.And(ret <= top * qs, ret >= -top * qs))
+      return s
     gmax = [g for kind, e, g, k in ip.aggs if kind == "K.max"]
     if not gmax:
       s.claim("scale_formula", False)
@@ -277,10 +284,14 @@ def cases(tier):
                     replay_kind="c05", assumptions=ASSUME, timeout_ms=20000))
   TL = Q.QF + "quantized_linear.__call__"
   for shape in ((5,), (3, 4), (2, 2, 3, 4)):
-    out.append(Case(PROP, TL, "alpha-auto_rank%d" % len(shape), linear_scenario(shape), bounds=bounds, replay_kind=None,
+    out.append(Case(PROP, TL, "alpha-auto_rank%d" % len(shape), linear_scenario(shape), bounds=bounds, replay_kind="c05_linear",
                     assumptions=ASSUME, timeout_ms=20000))
   out.append(Case(PROP, TL, "alpha-auto_scale_axis0_rank2", linear_scenario((3, 4), scale_axis=0), bounds=bounds,
-                  replay_kind=None, assumptions=ASSUME, timeout_ms=20000))
+                  replay_kind="c05_linear", assumptions=ASSUME, timeout_ms=20000))
+  for shape, sa in (((3, 4), None), ((3, 4), 0), ((2, 3, 4), 1)) + ((((5,), None),) if tier == "thorough" else ()):
+    out.append(Case(PROP, TL, "alpha-auto_po2%s_rank%d" % ("" if sa is None else "_scale_axis%d" % sa, len(shape)),
+                    linear_scenario(shape, scale_axis=sa, alpha="auto_po2"), bounds=bounds, replay_kind="c05_linear",
+                    assumptions=ASSUME, timeout_ms=20000))
   out.append(Case(PROP, T, "frozen_post_training_scale_rank2", scenario_for("frozen", (3, 4)), bounds=bounds,
                   replay_kind="c05", assumptions=ASSUME, timeout_ms=20000))
   return out
